@@ -40,7 +40,7 @@ def sens_table(kind):
         if kind == 'patch':
             what = metas.get(x['name'], {}).get('summary', '')[:260]
         else:
-            what = hand.get(x['name'], {}).get('file', '')
+            what = hand.get(x['name'], {}).get('file', '') + (' (equivalent mutant)' if hand.get(x['name'], {}).get('equivalent') else '')
         det = [c for c, v in x['checks'].items() if v['detected']]
         cl = sorted(set(c for v in x['checks'].values() for c in v.get('clauses', [])))[:3]
         rows.append('| %s | %s | %s | %s | %s |' % (esc(x['name']), esc(what), ', '.join(x['checks']), ', '.join(det) if det else ('**not detected**' if 'error' not in x else 'error: ' + esc(x['error'])),
@@ -48,7 +48,8 @@ def sens_table(kind):
     n = sum(1 for x in r['results'] if x['kind'] == kind)
     d = sum(1 for x in r['results'] if x['kind'] == kind and any(v['detected'] for v in x['checks'].values()))
     rows.append('')
-    rows.append('%d of %d detected (repo head `%s`, quick tier, VERIF_SEED=1).' % (d, n, r['repo_head']))
+    eq = sum(1 for x in r['results'] if x['kind'] == kind and hand.get(x['name'], {}).get('equivalent'))
+    rows.append('%d of %d detected%s (repo head `%s`, quick tier, VERIF_SEED=1).' % (d, n, (' (%d equivalent)' % eq) if eq else '', r['repo_head']))
     return '\n'.join(rows)
 
 
